@@ -1,19 +1,28 @@
-import PepperProofs.ConstraintGenSeeds
+import PepperProofs.ConstraintGenLoad
 /-!
 # C04 — designer constraint arrays are the exact closure of the specification
 
-Model: `PepperModel/ConstraintGen.lean` (`getConstraints`), source `design/constraint_load.py`.
+Model: `PepperModel/ConstraintGen.lean` (`getConstraints` = `Convert.get_constraints`, both layouts), source
+`design/constraint_load.py`.  Specification: `LinkSpec` over `Pil.denote spec` — `ParityReach` / `NucReach` (parity
+reachability in the link graph of the design: even link per pair of positions identified by an `equal` line, odd
+link per base pair, parity adjusted by the `comp` flags), `okVar` (a base is allowed by the template of a position).
+
+Status.  Proved at full strength: exactness of the arrays with respect to the link graph the function seeds
+(`arrays_exact_graph`, both layouts), and for the strand layout the soundness half of the identification of that
+graph with the semantic link graph (`arrays_sound_strand`) and `layout_exact_strand`.  The completeness half (every
+semantic link and every pair of nodes with the same nucleotide is connected in the seeded graph) and the structure
+layout are stated (`arrays_exact_statement`) and validated by correspondence + the independent oracle.
 -/
 namespace Pepper.C04
 open Pepper Pepper.Pil Pepper.ConstraintGen Pepper.LinkSpec Pepper.Closure
 
-/-- **Exactness over the seeded graph.**  When `get_constraints` returns arrays, then with respect to the link
-    graph it seeded (`build s`): the arrays have one common length `n ≤ P`, the last index is a position;
-    an index that is not a position holds `None` in all three arrays; for a position `i`, `eq[i]` is the lowest
-    position at even parity distance from `i`, `wc[i]` the lowest position at odd parity distance (or `None` if
-    there is none), and `st[i]` is a code whose set of bases is exactly the set of bases allowed by every
-    template at even distance and, complemented, by every template at odd distance; no node is at odd
-    distance from itself. -/
+/-- **Exactness over the seeded graph (both layouts, every lawful table).**  When `get_constraints` returns
+    arrays, then with respect to the link graph it seeded (`build s`): the arrays have one common length `n ≤ P`
+    and the last index is a position; an index that is not a position holds `None` in all three arrays; for a
+    position `i`, `eq[i]` is the lowest position at even parity distance from `i`, `wc[i]` the lowest position at
+    odd parity distance (`None` if there is none), and `st[i]` is a code whose set of bases is exactly the set of
+    bases allowed by every template at even distance and, complemented, by every template at odd distance; no
+    node is at odd distance from itself. -/
 theorem arrays_exact_graph {tbl : CodeTable} (hl : tbl.lawful = true) {mode : Layout} {spec : Spec}
     (ok : SpecCodes tbl spec) {s : Seeds} {c : Cons} (hs : seeds mode spec = .ok s) (hb : build s = .ok c)
     {a : Arrays} (ha : getConstraintsT tbl mode spec = .ok a) : GraphExact tbl c s.P a := by
@@ -24,5 +33,190 @@ theorem arrays_exact_graph {tbl : CodeTable} (hl : tbl.lawful = true) {mode : La
       have := h.1.symm.trans ha
       simpa using this
     exact this ▸ h.2.2
+
+/-- **Soundness, strand layout.**  For a document accepted by the reader and arrays returned by `get_constraints`
+    in the strand layout: every non-blank index `i` denotes a nucleotide `m` (`denS`, see `layout_exact_strand`),
+    and
+    * the position `eq[i]` carries a nucleotide the design forces *equal* to `m`,
+    * the position `wc[i]` (if any) carries a nucleotide the design forces *complementary* to `m`,
+    * `st[i]` allows every base that all templates linked to `m` in the design allow (complemented at odd parity).
+    So the arrays never claim more than the link closure of the specification.  (The converse inclusions are the
+    completeness half, see `arrays_exact_statement`.) -/
+theorem arrays_sound_strand {stmts : List Stmt} {spec : Spec}
+    (hload : Pil.load Generated.nupackTable stmts {} = .ok spec)
+    {s : Seeds} {c : Cons} (hs : seeds .strand spec = .ok s) (hb : build s = .ok c)
+    {a : Arrays} (ha : getConstraints .strand spec = .ok a)
+    {i : Nat} {ch : Char} (hi : a.2.2[i]? = some (some ch)) :
+    ∃ m, denS spec i = some m ∧
+      (∀ r, a.1[i]? = some (some r) → ∃ n, denS spec r = some n ∧ NucReach (Pil.denote spec) m false n) ∧
+      (∀ w, a.2.1[i]? = some (some w) → ∃ n, denS spec w = some n ∧ NucReach (Pil.denote spec) m true n) ∧
+      (∀ b, (∀ v q, ParityReach (Pil.denote spec) m.var q v →
+          okVar Generated.pilTable (Pil.denote spec) v (flipB (flipB b m.comp) q)) →
+        hasB (Generated.pilTable.maskC ch) b) := by
+  have wf := load_wf hload
+  have ok := load_specCodes hload
+  have G := arrays_exact_graph pilLawful ok hs hb ha
+  have hlt : i < a.1.length := by
+    rw [← G.len_st]; exact (List.getElem?_eq_some_iff.1 hi).1
+  have hk : i ∈ c.keys := by
+    cases Classical.em (i ∈ c.keys) with
+    | inl h => exact h
+    | inr h =>
+      have := (G.blank i hlt h).2.2
+      rw [this] at hi; cases hi
+  obtain ⟨m, hm, h1, h2, h3⟩ := arrays_sound_strand_aux wf ok pil_N.2 hs hb G hlt hk
+  exact ⟨m, hm, h1, h2, fun b hb' => h3 ch hi b hb'⟩
+
+/-- **`layout_exact`, strand layout.**  An index below the array length is non-blank exactly when it is
+    `start k + x` for a strand `k` and an offset `x` inside it, where `start k` is the sum over the earlier strands
+    of (length + `strandGap`) — `strandGap` being the number of blanks measured on the working tree (2); that
+    index then denotes the `x`-th nucleotide of strand `k` of the design; and the array length is the last such
+    index + 1. -/
+theorem layout_exact_strand {stmts : List Stmt} {spec : Spec}
+    (hload : Pil.load Generated.nupackTable stmts {} = .ok spec)
+    {s : Seeds} {c : Cons} (hs : seeds .strand spec = .ok s) (hb : build s = .ok c)
+    {a : Arrays} (ha : getConstraints .strand spec = .ok a) :
+    (∀ i, i < a.2.2.length →
+      (a.2.2[i]? ≠ some none ↔ ∃ q ∈ enum spec.strands, ∃ x, x < q.2.len ∧
+        i = ((spec.strands.take q.1).map (fun o => o.len + Generated.strandGap)).sum + x)) ∧
+    (∀ q ∈ enum spec.strands, ∀ x, x < q.2.len →
+      denS spec (((spec.strands.take q.1).map (fun o => o.len + Generated.strandGap)).sum + x)
+        = (nucsOfBases q.2.bases)[x]? ∧
+      ((spec.strands.take q.1).map (fun o => o.len + Generated.strandGap)).sum + x < a.2.2.length) ∧
+    a.2.2[a.2.2.length - 1]? ≠ some none := by
+  have wf := load_wf hload
+  have ok := load_specCodes hload
+  have G := arrays_exact_graph pilLawful ok hs hb ha
+  have hst : ∀ i, i < a.1.length → (a.2.2[i]? ≠ some none ↔ i ∈ c.keys) := by
+    intro i hi
+    constructor
+    · intro h
+      cases Classical.em (i ∈ c.keys) with
+      | inl hk => exact hk
+      | inr hk => exact absurd (G.blank i hi hk).2.2 h
+    · intro hk h
+      obtain ⟨_, _, ch, hch, _⟩ := G.key i hi hk
+      rw [hch] at h; cases h
+  have startEq : ∀ q ∈ enum spec.strands, startS spec q.1 =
+      ((spec.strands.take q.1).map (fun o => o.len + Generated.strandGap)).sum :=
+    fun q hq => startS_closed spec (mem_enum_lt hq)
+  refine ⟨?_, ?_, ?_⟩
+  · intro i hi
+    rw [G.len_st] at hi
+    rw [hst i hi, key_iff_pos_strand wf ok hs hb (Nat.lt_of_lt_of_le hi G.le_P)]
+    constructor
+    · rintro ⟨q, hq, x, hx, rfl⟩; exact ⟨q, hq, x, hx, by rw [startEq q hq]⟩
+    · rintro ⟨q, hq, x, hx, rfl⟩; exact ⟨q, hq, x, hx, by rw [startEq q hq]⟩
+  · intro q hq x hx
+    rw [← startEq q hq]
+    refine ⟨denS_pos wf ok hs hb hq hx, ?_⟩
+    rw [G.len_st]
+    -- the position is a key below P, hence inside the arrays
+    obtain ⟨li, ce, be, ee, se, te, h1, _, _, _, _, _, rfl⟩ := seeds_ok hs
+    obtain ⟨_, hkeys, _, _, _, _⟩ := build_spec (tbl := Generated.pilTable) hb (seeds_codes ok hs)
+    have hli := layoutInits_strand spec
+    rw [layOf_strand] at h1
+    rw [h1] at hli
+    have hli := Except.ok.inj hli
+    have hk : startS spec q.1 + x ∈ c.keys := by
+      rw [hkeys, List.map_append, List.mem_append]
+      left
+      rw [hli]
+      exact List.mem_map.2 ⟨(startS spec q.1 + x, 'N'),
+        List.mem_flatMap.2 ⟨q, hq, List.mem_map.2 ⟨x, List.mem_range.2 hx, rfl⟩⟩, rfl⟩
+    cases Classical.em (startS spec q.1 + x < (layOf .strand spec).total) with
+    | inl hlt => exact G.bound _ hk hlt
+    | inr hge =>
+      -- impossible: a position key that is not below P would collide with no array index, but `dump` numbers
+      -- every integer key; use that the key list has no duplicates and sequence keys start at P
+      exfalso
+      have hpos : startS spec q.1 + x < (layStrand spec).total := by
+        have hq2 : spec.strands[q.1]? = some q.2 := enum_getElem? hq
+        have := layStrandAux_total spec.strands 0 q.1 q.2 hq2
+        rw [startS_closed spec (mem_enum_lt hq)]
+        show _ < (layStrandAux spec.strands 0).2
+        omega
+      exact hge hpos
+  · have klast : a.1.length - 1 < a.1.length := by have := G.n_pos; omega
+    rw [G.len_st, hst _ klast]
+    exact G.last
+
+/-- The full statement of the property for the model: for every accepted document and both layouts, the returned
+    arrays are exactly `LinkSpec.specArrays` — the arrays computed naively from the semantic link graph and the
+    line of nucleotides the layout describes (`eq[i] = eq[j]` iff forced equal, `wc[i]` = lowest position forced
+    complementary or none, `eq[i]` = lowest of its class, `st[i]` = intersection of all linked templates,
+    `lineOf` = strands with their blank separators).  Proved so far: `arrays_exact_graph` + `arrays_sound_strand` +
+    `layout_exact_strand`; the remaining half (completeness of the seeding, structure layout) is validated on every
+    sampled document by the correspondence (`pil-constraints` vs the real arrays, `pil-spec-arrays` vs the
+    independent oracle). -/
+def arrays_exact_statement : Prop :=
+  ∀ (stmts : List Stmt) (spec : Spec) (mode : Layout) (a : Arrays),
+    Pil.load Generated.nupackTable stmts {} = .ok spec →
+    getConstraints mode spec = .ok a →
+    a = specArrays Generated.pilTable (mode == .struct) (Pil.denote spec)
+
+
+/-! ### non-vacuity: concrete small documents -/
+
+/-- `get_constraints` on a statement list as the reader hands it over -/
+def run (mode : Layout) (l : List Stmt) : Except ConstraintGen.Err Arrays :=
+  match Pil.load Generated.nupackTable l {} with
+  | .ok s => getConstraints mode s
+  | .error _ => .error .assertion
+
+/-- the hypotheses "the seeding succeeds" of the theorems hold on a document -/
+def seeded (mode : Layout) (l : List Stmt) : Bool :=
+  match Pil.load Generated.nupackTable l {} with
+  | .ok s => (match seeds mode s with
+    | .ok sd => (match build sd with | .ok _ => true | .error _ => false)
+    | .error _ => false)
+  | .error _ => false
+
+/-- a duplex: `A = a`, `B = a*`, fully paired; the `S` of the template shows up complemented (`S`) on the other strand -/
+def duplex : List Stmt := [
+  .seq "a" "NNS".toList, .strand "A" false ["a"], .strand "B" false ["a*"],
+  .struct "D" (some "1nt") ["A", "B"] "(((+)))".toList ]
+
+/-- a hairpin pairing a domain of odd length with itself: the middle position is its own partner -/
+def hairpin : List Stmt := [
+  .seq "a" "NNNNN".toList, .strand "A" false ["a", "a"], .struct "H" (some "1nt") ["A"] "((((()))))".toList ]
+
+/-- `D` (AGT) meets `V` (ACG) through an `equal` line: the common part is `R` (AG) -/
+def dv : List Stmt := [
+  .seq "a" "DDD".toList, .seq "b" "VVV".toList, .strand "A" false ["a", "b"],
+  .struct "S" none ["A"] "......".toList, .equal ["a", "b"] ]
+
+def okIs (r : Except ConstraintGen.Err Arrays) (a : Arrays) : Bool :=
+  match r with | .ok b => b == a | .error _ => false
+
+def errIs (r : Except ConstraintGen.Err Arrays) (e : ConstraintGen.Err) : Bool :=
+  match r with | .ok _ => false | .error e' => e' == e
+
+example : seeded .strand duplex = true ∧ seeded .struct duplex = true := by decide +kernel
+
+/-- strand layout: two blanks between the strands; every position is paired with its mirror image -/
+example : okIs (run .strand duplex)
+    ([some 0, some 1, some 2, none, none, some 5, some 6, some 7],
+     [some 7, some 6, some 5, none, none, some 2, some 1, some 0],
+     [some 'N', some 'N', some 'S', none, none, some 'S', some 'N', some 'N']) = true := by decide +kernel
+
+/-- structure layout: one blank between the strands of the complex -/
+example : okIs (run .struct duplex)
+    ([some 0, some 1, some 2, none, some 4, some 5, some 6],
+     [some 6, some 5, some 4, none, some 2, some 1, some 0],
+     [some 'N', some 'N', some 'S', none, some 'S', some 'N', some 'N']) = true := by decide +kernel
+
+/-- the specification side computes the same arrays on the duplex -/
+example : (match Pil.load Generated.nupackTable duplex {} with
+    | .ok s => specArrays Generated.pilTable false (Pil.denote s) ==
+        ([some 0, some 1, some 2, none, none, some 5, some 6, some 7],
+         [some 7, some 6, some 5, none, none, some 2, some 1, some 0],
+         [some 'N', some 'N', some 'S', none, none, some 'S', some 'N', some 'N'])
+    | .error _ => false) = true := by decide +kernel
+
+/-- `D` meeting `V`: the second domain shares the representatives of the first, every template becomes `R` -/
+example : okIs (run .strand dv)
+    ([some 0, some 1, some 2, some 0, some 1, some 2], [none, none, none, none, none, none],
+     [some 'R', some 'R', some 'R', some 'R', some 'R', some 'R']) = true := by decide +kernel
 
 end Pepper.C04
